@@ -23,10 +23,11 @@ Definition prerun (l : loc) : bool :=
 Definition inflight (l : loc) : bool :=
   match l with LClaimed | LRunning _ | LExited _ => true | _ => false end.
 
-Definition is_fin (l : loc) : bool := match l with LFin _ => true | _ => false end.
+Definition is_fin (l : loc) : bool := match l with LFin _ | LAcked _ | LAckFailed _ => true | _ => false end.
+Definition is_acked (l : loc) : bool := match l with LAcked _ => true | _ => false end.
 Definition is_notpub (l : loc) : bool := match l with LNotPub _ => true | _ => false end.
 Definition is_running (l : loc) : bool := match l with LRunning _ => true | _ => false end.
-Definition is_after (l : loc) : bool := match l with LExited _ | LFin _ => true | _ => false end.
+Definition is_after (l : loc) : bool := match l with LExited _ | LFin _ | LAcked _ | LAckFailed _ => true | _ => false end.
 Definition waiting (l : loc) : bool :=
   match l with
   | LNotPub _ | LInQ | LRejected _ | LPurged _ | LDeq _ | LSkipped => true
@@ -54,7 +55,8 @@ Record Inv (s : jstate) : Prop := mkInv {
   i_closed_done : closes s = 1 -> starts s = 0 \/ exits s = 1;
   i_handle_status : parsed s = false -> waiting (where_ s) = true ->
                     st s = sCreated \/ st s = sQueued \/ st s = sClosed;
-  i_st_le : st s <= sClosed
+  i_st_le : st s <= sClosed;
+  i_acks : acks s = if is_acked (where_ s) then 1 else 0
 }.
 
 Lemma init_inv : Inv init_state.
@@ -92,7 +94,7 @@ Ltac destr_step H :=
 
 (* the state is a record of finite data and counters: expose everything and let lia decide *)
 Ltac expose s :=
-  destruct s as [st0 loc0 wg0 hw0 win0 don0 sta0 exi0 clo0 sig0 nil0 can0 par0]; cbn in *.
+  destruct s as [st0 loc0 wg0 hw0 win0 don0 sta0 exi0 clo0 sig0 nil0 can0 par0 ack0]; cbn in *.
 
 Ltac decomp :=
   repeat match goal with
@@ -188,6 +190,9 @@ Proof. intros I H. go I H s. all: try solve_clause. all: heavy. Qed.
 Lemma inv_ERetCloseNil s t s' : Inv s -> jstep s (ERetCloseNil t) = Some s' -> Inv s'.
 Proof. intros I H. go I H s. all: try solve_clause. all: heavy. Qed.
 
+Lemma inv_EAck s g ok s' : Inv s -> jstep s (EAck g ok) = Some s' -> Inv s'.
+Proof. intros I H. go I H s. all: try solve_clause. all: heavy. Qed.
+
 Lemma step_inv s e s' : Inv s -> jstep s e = Some s' -> Inv s'.
 Proof.
   intros I H. destruct e.
@@ -207,6 +212,7 @@ Proof.
   - eapply inv_EWfEnter; eauto.
   - eapply inv_EWfExit; eauto.
   - eapply inv_ERetCloseNil; eauto.
+  - eapply inv_EAck; eauto.
 Qed.
 
 Lemma run_inv es : forall s s', Inv s -> jrun s es = Some s' -> Inv s'.
@@ -380,4 +386,20 @@ Proof.
     destruct (i_winner s I) as (? & ? & ?); [now rewrite Ew|]. lia. }
   clear I R Hw W. expose s. subst. cbn.
   destruct e; cbn in He; destr_step He; cbn; auto; bools; try discriminate.
+Qed.
+
+(* acknowledgement: at most once, only after the worker function returned, by the finisher *)
+Theorem ack_sound s : Reachable s -> acks s <= 1 /\ (acks s = 1 -> exits s = 1).
+Proof.
+  intros R. apply reachable_inv in R. pose proof (i_acks s R) as A. pose proof (i_after s R) as B.
+  destruct (where_ s); cbn in *; split; intros; try lia; apply B; reflexivity.
+Qed.
+
+Theorem ack_enabled_only_when_finished s g ok s' :
+  Reachable s -> jstep s (EAck g ok) = Some s' -> exits s = 1 /\ acks s = 0 /\ st s = sFinished.
+Proof.
+  intros R H. apply reachable_inv in R. cbn in H.
+  destruct (loc_eqb (where_ s) (LFin g) && (st s =? sFinished)) eqn:E; [|discriminate]. bools.
+  pose proof (i_acks s R) as A. pose proof (i_after s R) as B. rewrite H0 in *. cbn in *.
+  repeat split; auto. apply B; reflexivity.
 Qed.
